@@ -341,7 +341,7 @@ impl<const N: usize> TryFrom<u128> for U32s<N> {
             0 => err,
             1 if value > u128::from(u32::MAX) => err,
             2 if value > u128::from(u64::MAX) => err,
-            3 if value > u128::from(u64::MAX) * u128::from(u32::MAX) => err,
+            3 if value >= 1 << 96 => err,
             _ => Ok(U32s::from(BigUint::from(value))),
         }
     }
